@@ -50,7 +50,7 @@ const AES128: u8 = 2;
 // - - X X    X X X X
 const KT_ALG_MASK: u8 = 0x3f;
 
-#[cfg(gufo_snmp_verif)]
+#[cfg(all(gufo_snmp_verif, not(gufo_snmp_verif_nostate)))]
 impl PrivKey {
     /// (cipher code, next salt counter, private buffer length)
     pub fn verif_state(&self) -> (u8, u64, usize) {
